@@ -1,6 +1,10 @@
 package props
 
 import (
+	"encoding/json"
+	"fmt"
+
+	"github.com/go-openapi/spec"
 	"strings"
 
 	"verif/harness/gen"
@@ -31,7 +35,65 @@ func applyKnownSwitches(cfg *gen.BundleCfg) {
 				cfg.NoKeepNames = true
 			case s == "NoSharedSchemaPtrs":
 				cfg.NoSharedSchemaPtrs = true
+			case s == "KeepNamesPlainOnly":
+				cfg.KeepNamesPlainOnly = true
 			}
 		}
 	}
+}
+
+// ---- classifiers of open known findings -------------------------------------------------------
+
+func init() {
+	// KeepNames keeps created names unmangled; names are then built from URL-escaped $ref strings and
+	// spliced unescaped into '#/definitions/<name>' paths: definition or property names that need URL
+	// or JSON-pointer escaping yield definitions stored under a key the $ref does not decode to.
+	Classifiers["keepnames-escaping"] = func(prop string, c interface{}, fail string) bool {
+		fc, ok := c.(*gen.FlattenCase)
+		if !ok || !fc.Opts.KeepNames {
+			return false
+		}
+		f := bundleFeatures(fc)
+		if f.ptrEscNames+f.urlEscNames == 0 {
+			return false
+		}
+		return strings.Contains(fail, "no key") || strings.Contains(fail, "JSON pointer error") || strings.Contains(fail, "dangling")
+	}
+	// spec.ExpandSpec itself (go-openapi/spec, outside this repository) fails on the bundle: a remote
+	// reference cycle reached from documents in two different directories is rebased twice.
+	Classifiers["spec-expandspec-fails"] = func(prop string, c interface{}, fail string) bool {
+		fc, ok := c.(*gen.FlattenCase)
+		if !ok || !fc.Opts.Expand || !strings.Contains(fail, "no such document") {
+			return false
+		}
+		return specExpandFails(fc)
+	}
+}
+
+// specExpandFails runs go-openapi/spec's own full expansion on the bundle, in this process.
+func specExpandFails(c *gen.FlattenCase) bool {
+	docs := docsText(c, 0)
+	saved := spec.PathLoader
+	defer func() { spec.PathLoader = saved }()
+	spec.PathLoader = func(p string) (json.RawMessage, error) {
+		p = strings.TrimPrefix(p, "file://")
+		if b, ok := docs[p]; ok {
+			return json.RawMessage(b), nil
+		}
+		return nil, fmt.Errorf("vfs: no such document %s", p)
+	}
+	var sw spec.Swagger
+	if err := json.Unmarshal([]byte(docs[c.RootPath()]), &sw); err != nil {
+		return false
+	}
+	failed := false
+	func() {
+		defer func() {
+			if r := recover(); r != nil {
+				failed = true
+			}
+		}()
+		failed = spec.ExpandSpec(&sw, &spec.ExpandOptions{RelativeBase: c.RootPath()}) != nil
+	}()
+	return failed
 }
